@@ -433,6 +433,9 @@ def run(ctx, prog):
     from rules import accum
     accum.run(ctx, prog)
     accum.run_lockstep(ctx, prog)
+    from rules import numparse
+    numparse.r_expcut(ctx, prog)
+    numparse.r_floatpath(ctx, prog)
 
 
 def region_has_float(pt, ks, rout, tin):
